@@ -1,10 +1,10 @@
-"""C17 -- remaining class-level refactorings (narrow necessary conditions R17.1-R17.8)."""
+"""C17 -- remaining class-level refactorings (narrow necessary conditions R17.1-R17.9)."""
 from __future__ import annotations
 
 import ast
 
 from ..cfg import CFG
-from ..core import AnalysisError, call_name, calls_in, is_self_attr, norm, walk_local
+from ..core import AnalysisError, call_name, calls_in, is_self_attr, norm, walk_local, param_names
 from .c03 import yield_counter_rule
 from .c04 import classifier_table_rule
 from .c19 import matcher_rule
@@ -94,7 +94,7 @@ def check(ctx, res) -> None:
     gcfg = CFG(gf.node)
     n6 = 0
 
-    def column_valued(t: ast.AST) -> bool:
+    def column_valued(t: ast.AST, depth: int = 0) -> bool:
         for x in ast.walk(t):
             if isinstance(x, ast.Call) and "indent" in call_name(x).lower():
                 return True
@@ -102,24 +102,55 @@ def check(ctx, res) -> None:
                 return True
             if isinstance(x, ast.Call) and call_name(x) in ("startswith", "lstrip", "isspace"):
                 return True
+            if isinstance(x, ast.Name) and depth < 2:  # a local that holds the column
+                for d in walk_local(gf.node):
+                    if isinstance(d, ast.Assign) and any(isinstance(tg, ast.Name) and tg.id == x.id for tg in d.targets) and column_valued(d.value, depth + 1):
+                        return True
         return False
 
+    gparam = next((p for p in param_names(gf.node) if "global" in p), None)
     for nd in gcfg.nodes:
         if nd.kind != "stmt" or not isinstance(nd.ast, ast.Return) or nd.ast.value is None:
             continue
+        gs = gcfg.guards(nd.id)
+        # the text for a GLOBAL factory: returned on the flag's true side (or, without a recognisable flag, any `def` literal)
+        # and not passed through an indenting helper
         consts = [x.value for x in ast.walk(nd.ast.value) if isinstance(x, ast.Constant) and isinstance(x.value, str)]
-        col0 = any(("\ndef " in c or c.startswith("def ")) for c in consts) and not any(
+        on_global_side = any(pol and isinstance(t, ast.Name) and t.id == gparam for t, pol in gs) if gparam else \
+            any(("\ndef " in c or c.startswith("def ")) for c in consts)
+        col0 = on_global_side and not any(
             isinstance(x, ast.Call) and call_name(x) in ("indent_lines", "fix_indentation") for x in ast.walk(nd.ast.value))
         if not col0:
             continue
         n6 += 1
-        ok = any(column_valued(t) for t, pol in gcfg.guards(nd.id))
+        ok = any(column_valued(t) for t, pol in gs)
         res.add("R17.6", "_get_factory_method|global-at-column-0", ok, f"{gf.unit.rel}:{nd.lineno}",
                 "the unindented factory text is emitted only after a test on the textual column of the class line" if ok else
                 "the global factory (unindented `def` text inserted right after the class) is emitted without any test on the textual column of the "
                 "class statement: a class defined inside a module-level if/try/with block gets the factory pasted into the middle of that block, so "
                 "the statements after it become dead code or the module stops parsing", function=gf.qualname)
     res.floor("R17.6", "column-0 factory templates", n6, 1)
+
+    # ---- R17.9 the factory is inserted below the class: below the end of its LAST nested definition (rope's class scope
+    # ends where its own statements end; the nested scopes are in source order)
+    gi = idx.need_func("rope.refactor.introduce_factory.IntroduceFactory._get_insertion_offset")
+    picks = [x for x in walk_local(gi.node) if isinstance(x, ast.Subscript) and not isinstance(x.slice, ast.Slice)
+             and (any(isinstance(c, ast.Call) and call_name(c) == "get_scopes" for c in ast.walk(x.value)) or
+                  (isinstance(x.value, ast.Name) and any(isinstance(d, ast.Assign) and any(isinstance(tg, ast.Name) and tg.id == x.value.id for tg in d.targets)
+                                                         and any(isinstance(c, ast.Call) and call_name(c) == "get_scopes" for c in ast.walk(d.value))
+                                                         for d in walk_local(gi.node))))]
+    if not picks:
+        raise AnalysisError("anchor=IntroduceFactory._get_insertion_offset: the pick among the class's nested scopes not found")
+    for k, x in enumerate(picks, 1):
+        sl = x.slice
+        val = sl.value if isinstance(sl, ast.Constant) else (-sl.operand.value if isinstance(sl, ast.UnaryOp) and isinstance(sl.op, ast.USub)
+                                                             and isinstance(sl.operand, ast.Constant) else None)
+        ok = val == -1
+        res.add("R17.9", f"_get_insertion_offset|last-nested-scope#{k}", ok, f"{gi.unit.rel}:{x.lineno}",
+                "the factory goes below the last definition nested in the class" if ok else
+                f"the insertion point is taken from `{ast.unparse(x)}`, not from the LAST nested scope: a global factory is pasted after the class's first "
+                "method, the remaining methods (indented like the factory's body) become dead code nested in the factory, and the class loses them",
+                function=gi.qualname)
 
     # ---- R17.7 the generated method-object class must exist before module-level code after the function runs: it is
     # inserted after the TOP-LEVEL DEFINITION that contains the function, so the climb through `.parent` stops below the
